@@ -163,6 +163,16 @@ CHECKS['C14'] = dict(
     note='pattern meaning only inside the Regex.tla fragment; relative-date rules are a recorded known finding (KF-C14-1)',
     design='§4 C14')
 
+CHECKS['C19'] = dict(
+    technique='TLA+ spec Discover.tla (suggest_pattern over word shapes; the discover -> append -> rerun loop): TLC checks Closure, '
+              'StrictlyShrinks and termination (<>(unknown = {}) under weak fairness) for the repaired protocol and refutes the pinned one; '
+              'every description shape of the state space is concretised and pushed through the suggestion functions and '
+              'parse_merchants.match, and batches through the real tally discover / tally up',
+    text='Every description of up to 4 words over 8 word shapes; the suggested rule must load and match its own description; the real '
+         'command loop must leave nothing Unknown after one round.',
+    note='word shapes with a handful of concrete spellings each; no field transforms in the budgets',
+    design='§4 C19')
+
 NOT_YET = {}
 
 
